@@ -79,6 +79,15 @@ def run(index, tier="quick", seed=0) -> Result:
                         f"(F discontinuous as q becomes parallel to a face normal)")
             else:
                 res.ok("FF-5", label)
+        elif own:
+            # no comparison with zero: a tolerance test between two non-zero quantities of q puts the *relative* tolerance in play
+            rel = [e for e in r["events"] if e.type == "cmp" and e.func is fn and e.form in ("isclose", "allclose")
+                   and "q" in e.left.pdeps and "q" in e.right.pdeps and not e.left.is_number_const() and not e.right.is_number_const()
+                   and "rtol" not in (e.kw or {})]
+            if rel:
+                res.bad("FF-5", f"{label}:relative-zero", rel[0].where(), f"{label} selects the q = 0 branch with `{rel[0].src()[:60]}`, a comparison of two non-zero "
+                        "quantities of q: the default relative tolerance 1e-5 on squared lengths treats an in-plane component of up to 0.3 % of |q| as "
+                        "zero and drops its phase (F wrong for every q within 3e-3 rad of a face normal)")
         if not own:
             continue
         # FF-2 zero branch
@@ -136,7 +145,24 @@ def run(index, tier="quick", seed=0) -> Result:
     fnp = index.cls("Polygon").lookup("compute_form_factor_amplitude")
     try:
         qv = SV("vec", [Poly.atom(f"q.{c}") for c in "xyz"])
-        ret, ev = evaluate(fnp, {"q": qv, "density": SV("scal", [Poly.atom("RHO")])})
+        # state attributes the amplitude reads beyond the geometric ones: if such an attribute is stored as a numeric constant
+        # somewhere in the polygon classes (e.g. an orientation flag set to 1.0 at construction), it is orientation-free on
+        # those histories - evaluate the amplitude with that value
+        from ..polyparity import base_env
+        known_attr = set(base_env())
+        extra_attr = {}
+        for a_ in ast.walk(fnp.node):
+            if isinstance(a_, ast.Attribute) and isinstance(a_.value, ast.Name) and a_.value.id == "self" and f"self.{a_.attr}" not in known_attr \
+                    and isinstance(a_.ctx, ast.Load):
+                for cn_ in ("Polygon", "ConvexPolygon"):
+                    cdef = index.cls(cn_)
+                    for f_ in list(cdef.methods.values()) + [x for p_ in cdef.props.values() for x in (p_.getter, p_.setter) if x]:
+                        for st_ in ast.walk(f_.node):
+                            if isinstance(st_, ast.Assign) and any(isinstance(t_, ast.Attribute) and isinstance(t_.value, ast.Name) and t_.value.id == "self"
+                                                                   and t_.attr == a_.attr for t_ in st_.targets) \
+                                    and isinstance(st_.value, ast.Constant) and isinstance(st_.value.value, (int, float)):
+                                extra_attr[f"self.{a_.attr}"] = SV("scal", [Poly.const(st_.value.value)])
+        ret, ev = evaluate(fnp, {"q": qv, "density": SV("scal", [Poly.atom("RHO")])}, extra_attr=extra_attr)
         stores = {k: [par(c) for c in v.comps] for k, v in ev.masked_stores.items()}
         zero = [v for k, v in stores.items() if "~" not in k]
         gen = [v for k, v in stores.items() if "~" in k]
